@@ -7,7 +7,7 @@ COMMON_NOTE = ('trusted: the pyvc VC generator (cross-checked against CPython on
                'the pow2/bit_length axiom schemas (each proved in lean/FpyLemmas.lean against Mathlib), CPython semantics of the verified subset; ')
 CHECKS = {
  'C01': ('every function the property depends on in the number core (RoundingMode.to_direction, RealFloat.split/_round_params/_round_increment*/_round_at/round/compare) and the context layer (MPFloat, MPSFloat, MPBFloat, MPFixed, MPBFixed, Exp, Real, EFloat incl. its special-value table, round_params/round_integer, constructors establishing the class invariants, the Fixed/SMFixed/IEEE thin layers) carries a contract taken from the definition of correct rounding (floor/remainder form of the eight modes); VCs are generated for every path from the current source and discharged unbounded in operands, precisions and exponents',
-         'RealFloat._tiny_post (tininess after rounding) and efloat._ext_to_mpb_fmt are bounded stand-ins and reported separately; constructors WITH nan_value/inf_value substitutes are thorough-tier contracts; Context._round_prepare coercions and the inherited round/round_at of Fixed/SMFixed/IEEE are not covered; known findings F16, C01-W3-1..6 (constructor validation gaps) are reported as KNOWN-FINDING', 'DESIGN.md §B.3, §5 C01'),
+         'RealFloat._tiny_post (tininess after rounding) and efloat._ext_to_mpb_fmt are bounded stand-ins and reported separately; MPBFixedContext._round_at, ExpContext._round_at, _tiny_post and the constructors WITH nan_value/inf_value substitutes are thorough-tier contracts (each needs several hundred seconds; the quick command runs everything else in about 8 minutes); Context._round_prepare coercions and the inherited round/round_at of Fixed/SMFixed/IEEE are not covered; known findings F16, C01-W3-1..6 (constructor validation gaps) are reported as KNOWN-FINDING', 'DESIGN.md §B.3, §5 C01'),
  'C15': ('every SyntaxCheckInstance statement and expression visitor (incl. list-comprehension scoping, tuple bindings, _visit_function, dispatch verified per expression class), _Env.merge/extend, _mark_use and the Reachability visitors are proved (unbounded, symbolic maps/sets/sequences with loop invariants) to implement the definite-assignment / can-complete rules of the language guide, with frame clauses: no visitor mutates the ctx object of its caller',
          'soundness of the rule set w.r.t. execution is assumed; the decorator flow (both checks run on every path) is checked syntactically by tools/c15x_decorator_flow.py, not by the verifier; known finding C15X-1', 'DESIGN.md §B.3, §5 C15'),
  'C17': ('RealFloat.round is proved (unbounded) against the stochastic specification (result is one of the two neighbours, chosen by draw + L >= 2^k with L the mode-rounded distance; representable => unchanged; one draw per rounding) modulo the contract of _round_at_stochastic; round_params of every context family widens the pre-rounding precision by the random bits',
